@@ -241,7 +241,16 @@ class World:
         else:
             cur[step] = value
 
+    k1_seen = False      # sticky: a declared ordering cycle (known finding K1) existed after some operation of this world's history
+
     def apply(self, op):
+        try:
+            self._apply(op)
+        finally:
+            if not self.k1_seen and declared_cycle(self.m):
+                self.k1_seen = True
+
+    def _apply(self, op):
         k = op[0]
         if k == "val":
             self.parent_set(op[1], op[2])
